@@ -79,7 +79,7 @@ def run(tier, seed):
     if not hok:
         rep.broke('harness does not build against /repo', hlog[-1500:])
         return rep.finish()
-    n, steps = (150, 40) if tier == 'quick' else (4000, 120)
+    n, steps = (150, 40) if tier == 'quick' else (2000, 100)
     cases, err = C.run_harness('cache-seq', seed, n, {'steps': steps}, timeout=3000)
     if err:
         rep.broke('harness stream cache-seq failed', err)
